@@ -198,6 +198,10 @@ func (m *slotModel) arrOf(v ssa.Value) *slotArr {
 					sa.Opaque = "whole array overwritten"
 				}
 			case *ssa.UnOp, *ssa.DebugRef, *ssa.Range:
+			case *ssa.MakeInterface:
+				if !onlyLogged(u) {
+					sa.Opaque = "converted to an interface"
+				}
 			case *ssa.Return:
 				// handed to the caller: e.arr only accepts the call result when the caller reads it without writing
 			case *ssa.Phi:
@@ -1401,6 +1405,57 @@ func readOnlyUses(v ssa.Value, depth int) bool {
 		case *ssa.DebugRef, *ssa.Range:
 		case *ssa.Lookup:
 			// string/map lookups do not apply to slices; ignore
+		default:
+			return false
+		}
+	}
+	return true
+}
+
+// onlyLogged: the interface value is only handed to fmt / log functions (directly or through the varargs
+// array of such a call): printing a slice does not change it.
+func onlyLogged(mi *ssa.MakeInterface) bool {
+	isLog := func(call ssa.CallInstruction) bool {
+		obj := ssau.CalleeObj(call)
+		if obj == nil || obj.Pkg() == nil {
+			return false
+		}
+		switch obj.Pkg().Path() {
+		case "fmt", "log", "log/slog":
+			return true
+		}
+		return false
+	}
+	for _, r := range ssau.Refs(mi) {
+		switch u := r.(type) {
+		case *ssa.DebugRef:
+		case ssa.CallInstruction:
+			if !isLog(u) {
+				return false
+			}
+		case *ssa.Store:
+			// element of a varargs array: &arr[k] = mi ; slice arr[:] ; call(slice...)
+			ia, ok := u.Addr.(*ssa.IndexAddr)
+			if !ok || u.Val != ssa.Value(mi) {
+				return false
+			}
+			al, ok := ia.X.(*ssa.Alloc)
+			if !ok {
+				return false
+			}
+			for _, r2 := range ssau.Refs(al) {
+				switch w := r2.(type) {
+				case *ssa.IndexAddr, *ssa.DebugRef:
+				case *ssa.Slice:
+					for _, r3 := range ssau.Refs(w) {
+						if call, ok := r3.(ssa.CallInstruction); !ok || !isLog(call) {
+							return false
+						}
+					}
+				default:
+					return false
+				}
+			}
 		default:
 			return false
 		}
